@@ -553,10 +553,14 @@ func main() {
 	if *trDst == "" {
 		*trDst = filepath.Join(filepath.Dir(*dst), "Translated.lean")
 	}
-	tr := []byte(st.translate())
-	if old, err := os.ReadFile(*trDst); err != nil || !bytes.Equal(old, tr) {
-		if err := os.WriteFile(*trDst, tr, 0o644); err != nil {
-			die("%v", err)
+	for _, g := range []struct{ path, text string }{
+		{*trDst, st.translate()},
+		{strings.TrimSuffix(*trDst, ".lean") + "Scan.lean", st.translateScan()},
+	} {
+		if old, err := os.ReadFile(g.path); err != nil || !bytes.Equal(old, []byte(g.text)) {
+			if err := os.WriteFile(g.path, []byte(g.text), 0o644); err != nil {
+				die("%v", err)
+			}
 		}
 	}
 	if old, err := os.ReadFile(*dst); err == nil && bytes.Equal(old, out.Bytes()) {
